@@ -90,6 +90,14 @@ func DrawGraph(rt *rapid.T) History {
 					gen.Op{NI: b.NI, Kind: b.Kind, Act: gen.DELETE, Key: b.Key, NoPayload: true},
 					gen.Op{NI: b.NI, Kind: gen.NH, Act: gen.ADD, Key: "4", Intf: "eth0"},
 					gen.Op{NI: b.NI, Kind: gen.NH, Act: gen.ADD, Key: "3", Intf: "eth0"})
+				if rapid.Bool().Draw(rt, "queue-behind") {
+					// another entry queues up behind the same missing group, which then arrives:
+					// the doomed REPLACE is answered and the other one becomes installable in the same step
+					other := map[string]string{gen.V4: "198.18.0.0/15", gen.V6: "2001:db8:f00d::/48", gen.MPLS: "4242"}[b.Kind]
+					ops = append(ops,
+						gen.Op{NI: b.NI, Kind: b.Kind, Act: gen.ADD, Key: other, Group: 4},
+						gen.Op{NI: b.NI, Kind: gen.NHG, Act: gen.ADD, Key: "4", Hops: []gen.Hop{{Index: 4}}})
+				}
 				break
 			}
 		}
